@@ -9,7 +9,14 @@
        all its flags is handled by run() like a timeout and, the interrupt flag being set, ends the run }
    An operation queued with `react <callback> <op>` is executed when that callback is delivered, i.e.
    directly after the micro-step that emitted it (every callback of the modelled code is in tail
-   position). *)
+   position).
+   A send call the history has no answer for is answered would-block (as the simulated kernel does).
+
+   Mode `monitor`: the property-level monitor (ServerWriteMonitor.v, one instance per client) reads the
+   ordered event trace observed on the implementation (written by checks/C13.py from the harness
+   output) and prints one verdict per case:
+     wr <c> | re | w <c> <data> <ret> <post|-> <tx> | h <c> <hex> | b <c> | f <c> | cb <c> <name> |
+     su <c> <0|1> | sz <c> <n> | pr <c> <hex>     (c = 0 / 1: client A / B) *)
 open Model
 open Zconv
 
@@ -145,7 +152,7 @@ let rec exec m (toks : string list) (nested : bool) : unit =
                   end
                 end else true in
               if go then begin
-                let o = match !q with x :: _ -> x | [] -> Full in
+                let o = match !q with x :: _ -> x | [] -> WouldBlock in
                 match micro (M2 (Deliver o)) with
                 | Some mo ->
                     if mo.o.o_sends <> [] then (match !q with _ :: t -> q := t | [] -> ());
@@ -256,8 +263,47 @@ let spec_machine2 () : machine =
              if !lost then "?" else pair (fun (t : sst) -> hex_of_bytes (if t.s_peer_closed then [] else t.s_wire)) u.t0 u.t1);
     cache_empty = (fun () -> !st.pend = []) }
 
+(* ---- the property monitor on an observed trace ---- *)
+type mstate = { mons : mon array; mutable bad : (int * int * int) option; mutable nev : int }
+
+let clause_name c = match c with
+  | 1 -> "stream" | 2 -> "size" | 3 -> "onWrite" | 4 -> "suspended" | 5 -> "progress" | 6 -> "peer" | _ -> "?"
+
+let feed (ms : mstate) (c : int) (e : pev) =
+  if ms.bad = None then
+    match mon_step ms.mons.(c) e with
+    | Go m -> ms.mons.(c) <- m
+    | Stop k -> ms.bad <- Some (ms.nev, int_of_z k, c)
+
+let monitor_event (ms : mstate) (toks : string list) : mstate =
+  let cl s = if s = "1" then 1 else 0 in
+  let cbk s = match s with "onRead" -> OnRead | "onWrite" -> OnWrite | _ -> OnClosed in
+  (match toks with
+   | ["wr"; c] -> feed ms (cl c) EWritable
+   | ["re"] -> feed ms 0 ERunEnd; feed ms 1 ERunEnd
+   | ["w"; c; d; ret; post; tx] ->
+       feed ms (cl c) (EWrite (bytes_of_hex d, ret = "1", (if post = "-" then None else Some (z_of_int (int_of_string post))), bytes_of_hex tx))
+   | ["h"; c; tx] -> feed ms (cl c) (EHand (bytes_of_hex tx))
+   | ["b"; c] -> feed ms (cl c) EBlock
+   | ["f"; c] -> feed ms (cl c) EFault
+   | ["cb"; c; name] -> feed ms (cl c) (ECb (cbk name))
+   | ["su"; c; b] -> feed ms (cl c) (ESusp (b = "1"))
+   | ["sz"; c; n] -> feed ms (cl c) (ESize (z_of_int (int_of_string n)))
+   | ["pr"; c; d] -> feed ms (cl c) (EPeer (bytes_of_hex d))
+   | _ -> failwith ("bad event: " ^ String.concat " " toks));
+  ms.nev <- ms.nev + 1;
+  ms
+
 let () =
   let mode = Sys.argv.(1) and file = Sys.argv.(2) in
+  if mode = "monitor" then
+    run_cases file
+      (fun _ -> { mons = [| mon_init; mon_init |]; bad = None; nev = 0 })
+      (fun ms _ toks -> monitor_event ms toks)
+      (fun ms -> match ms.bad with
+         | None -> emit "verdict ok"
+         | Some (i, k, c) -> emit (Printf.sprintf "verdict bad %d %s %d" i (clause_name k) c))
+  else
   run_cases file
     (fun cfg ->
        Array.iter (Array.iter Queue.clear) reactq;
